@@ -35,6 +35,9 @@ func calleeName(cc *ssa.CallCommon) string {
 	if b, ok := cc.Value.(*ssa.Builtin); ok {
 		return b.Name()
 	}
+	if p, ok := cc.Value.(*ssa.Parameter); ok {
+		return p.Name()
+	}
 	return "dyn:" + cc.Value.Name()
 }
 
@@ -204,6 +207,12 @@ func (e *Eval) applyContract(fr *Frame, k *Contract, pkg *ssa.Package, pnames []
 	if k.Kind == "extern" {
 		c.Assume("assumed contract: " + k.Name)
 	}
+	if k.Kind == "func" && k.Abstract && !k.Inline {
+		c.Assume("UNVERIFIED contract of a /repo function (body not checked against it): " + k.Pkg + "." + k.Name)
+	}
+	if k.Kind == "fparam" {
+		c.Assume("contract of function parameter (assumed of every argument): " + k.Name)
+	}
 	if k.Kind == "interface" {
 		c.Assume("interface contract (implementations outside /repo are assumed to satisfy it): " + k.Pkg + "." + k.Name)
 	}
@@ -352,6 +361,40 @@ func (e *Eval) havocFrame(k *Contract, env *Env, post, pre *State) {
 			na := c.Fresh(comp+"@hvarr", fmt.Sprintf("(Array (_ BitVec 64) %s)", c.Sort(sl.Elem())))
 			c.Assert(fmt.Sprintf("(forall ((i (_ BitVec 64))) (! (=> (not (and (bvsle (s.off %s) i) (bvslt i (bvadd (s.off %s) (s.len %s))))) (= (select %s i) (select (select %s %s) i))) :pattern ((select %s i))))", tv.T, tv.T, tv.T, na, h, arr, na))
 			c.Set(post, comp, sto(h, arr, na))
+		case strings.HasPrefix(m, "maps(") && strings.HasSuffix(m, ")"):
+			// maps(map[K]V): every map of that type
+			ex, err := ParseSpecExpr(m[5 : len(m)-1])
+			var mt *types.Map
+			if err == nil {
+				if t := env.typeExpr(ex); t != nil {
+					mt, _ = t.Underlying().(*types.Map)
+				}
+			}
+			if mt == nil {
+				c.Unsupported("modifies %s: not a map type", m)
+				continue
+			}
+			dom, val := e.mapComps(mt)
+			c.Havoc(post, dom)
+			c.Havoc(post, val)
+		case strings.HasPrefix(m, "mapof(") && strings.HasSuffix(m, ")"):
+			// mapof(x.m): the content of that one map
+			ex, err := ParseSpecExpr(m[6 : len(m)-1])
+			if err != nil {
+				c.Unsupported("modifies %s: %v", m, err)
+				continue
+			}
+			tv := env.eval(ex)
+			mt, ok := tv.Ty.Underlying().(*types.Map)
+			if !ok {
+				c.Unsupported("modifies %s: not a map", m)
+				continue
+			}
+			dom, val := e.mapComps(mt)
+			d := c.Get(post, dom)
+			c.Set(post, dom, sto(d, tv.T, c.Fresh("hv.dom", fmt.Sprintf("(Array %s Bool)", c.Sort(mt.Key())))))
+			v := c.Get(post, val)
+			c.Set(post, val, sto(v, tv.T, c.Fresh("hv.val", fmt.Sprintf("(Array %s %s)", c.Sort(mt.Key()), c.Sort(mt.Elem())))))
 		case strings.HasPrefix(m, "type:"):
 			// type:T.f  -> whole field heap
 			parts := strings.SplitN(m[5:], ".", 2)
@@ -601,12 +644,12 @@ func (e *Eval) atClauses(fr *Frame, cc *ssa.CallCommon, name, site, kind string,
 		for i := 0; i < sig.Params().Len() && off+i < len(args); i++ {
 			n := sig.Params().At(i).Name()
 			if n != "" && n != "_" {
-				env.bindIfAbsent("$"+n, args[off+i], sig.Params().At(i).Type())
+				env.bindIfAbsent("p_"+n, args[off+i], sig.Params().At(i).Type())
 			}
-			env.bind(fmt.Sprintf("$%d", i), args[off+i], sig.Params().At(i).Type())
+			env.bind(fmt.Sprintf("arg%d", i), args[off+i], sig.Params().At(i).Type())
 		}
 		for i := range results {
-			env.bind(fmt.Sprintf("$r%d", i), results[i], sig.Results().At(i).Type())
+			env.bind(fmt.Sprintf("ret%d", i), results[i], sig.Results().At(i).Type())
 		}
 		g := env.evalBool(ex)
 		lbl := at.Clause.Label
@@ -635,6 +678,27 @@ func (e *Eval) applyGhost(k *Contract, env *Env, post, pre *State, cur, site str
 		if len(f) == 2 && f[0] == "inc" {
 			e.ghostCount(post, f[1])
 			continue
+		}
+		// set $name:type = expr   (expr over the post state and the results)
+		if len(f) >= 4 && f[0] == "set" {
+			rest := strings.TrimSpace(g[3:])
+			eqi := strings.Index(rest, "=")
+			lhs := strings.TrimSpace(rest[:eqi])
+			parts := strings.SplitN(lhs, ":", 2)
+			if len(parts) == 2 {
+				ty := env.lookupType(parts[1])
+				ex, err := ParseSpecExpr(strings.TrimSpace(rest[eqi+1:]))
+				if ty != nil && err == nil {
+					env.st = post
+					v := env.eval(ex)
+					if v.Ty == nil {
+						v = env.coerce(v, ty)
+					}
+					e.c.DeclComp(parts[0], env.sortOf(ty))
+					e.c.Set(post, parts[0], v.T)
+					continue
+				}
+			}
 		}
 		e.c.Unsupported("ghost directive %q", g)
 	}
